@@ -197,7 +197,7 @@ def run(prop, grp, tier, obligations, undecided, failures, checker_cmds, ev_extr
             else:
                 o["result"] = "discharged"
             if n in float_dep:
-                o["rests_on"] = "assumed float axioms A1/A2 (float_axioms module)"
+                o["rests_on"] = grp.get("needs_input_reason") or "assumed float axioms A1/A2 (float_axioms module)"
             obligations.append(o)
         for n, why in und.items():
             if wanted(n):
